@@ -463,6 +463,19 @@ def scalar_arith(op, a, b, fp=False):
         return cx_arith(op, to_cx(a), to_cx(b), fp)
     if isinstance(a, (Opaque, SObj)) or isinstance(b, (Opaque, SObj)) or a is None or b is None:
         raise Unsupported('arithmetic on opaque/None operand')
+    if op == '**' and isinstance(b, int) and not isinstance(b, bool) and is_z3(a) and not is_fp_term(a):
+        k = b
+        a = bool_as_num(a)
+        if k >= 0:
+            r = z3.RealVal(1) if z3.is_real(a) else z3.IntVal(1)
+            for _ in range(k):
+                r = r * a
+            return r
+        r = z3.RealVal(1)
+        a = z3.ToReal(a) if z3.is_int(a) else a
+        for _ in range(-k):
+            r = r / a
+        return r
     a, b = unify(a, b, fp)
     if not is_z3(a) and not is_z3(b):
         try:
